@@ -16,6 +16,9 @@ pub fn generate(prop: &str, tier: &str, seed: u64, out: &str, shards: usize) {
     let _ = mach.reset(&Regs::default(), 0, 0, &[], &[]);
     match prop {
         "C01" => gen_c01(&asm, &mut mach, &mut rng, &mut sh, thorough),
+        "C02" => gen_c02(&asm, &mut mach, &mut rng, &mut sh, thorough),
+        "C03" => gen_c03(&asm, &mut mach, &mut rng, &mut sh, thorough),
+        "C06" => gen_c06(&asm, &mut mach, &mut rng, &mut sh, thorough),
         _ => {
             eprintln!("no generator for {}", prop);
             std::process::exit(2);
@@ -174,4 +177,298 @@ fn gen_c01(asm: &Asm, mach: &mut Mach, rng: &mut Rng, sh: &mut Shards, thorough:
     let (ps, pm) = if thorough { (40, 6) } else { (4, 1) };
     form_steps_binary(asm, mach, rng, sh, "binarith", &ops, true, ps, pm);
     form_steps_unary(asm, mach, rng, sh, &["inc", "dec", "neg"], ps, pm);
+}
+
+pub const SHIFT_MNS: [(&str, &str); 8] = [("sal", "sal"), ("sal", "shl"), ("shr", "shr"), ("sar", "sar"), ("rol", "rol"), ("ror", "ror"), ("rcl", "rcl"), ("rcr", "rcr")];
+
+fn form_steps_shift(asm: &Asm, mach: &mut Mach, rng: &mut Rng, sh: &mut Shards, per_simple: usize, per_shape: usize) {
+    let shapes = all_shapes();
+    for (op, mn) in SHIFT_MNS {
+        for w in [8u8, 16u8] {
+            for o in ONES {
+                for use_cl in [false, true] {
+                    let mut cases: Vec<Option<(Shape, &'static str)>> = Vec::new();
+                    if o == One::Mem {
+                        for s in &shapes {
+                            for seg in SEGS {
+                                for _ in 0..per_shape {
+                                    cases.push(Some((*s, seg)));
+                                }
+                            }
+                        }
+                    } else {
+                        for _ in 0..per_simple {
+                            cases.push(None);
+                        }
+                    }
+                    for c in cases {
+                        let dst = one_operand(o, w, rng, c);
+                        let n = match rng.below(4) {
+                            0 => rng.below(3) as u32,
+                            1 => *rng.pick(&[7u32, 8, 9, 15, 16, 17, 18, 31, 32, 33, 255]),
+                            _ => rng.below(256) as u32,
+                        };
+                        let ins = Ins::Shift { op, mn, w, dst, cnt: if use_cl { Cnt::Cl } else { Cnt::Imm(n) } };
+                        let mut regs = random_regs(rng);
+                        if use_cl {
+                            regs.set("cl", n as u16);
+                        }
+                        let flags = rng.u16();
+                        let seed = rng.below(256) as i64;
+                        let evs = run_one(asm, mach, &ins, &rand_spelling(rng), &regs, flags, seed, &[], &[]);
+                        sh.count(&format!("shiftform:{}:{:?}:{}", mn, o, if use_cl { "cl" } else { "imm" }), 1);
+                        sh.unit(&evs);
+                    }
+                }
+            }
+        }
+    }
+}
+
+fn gen_c02(asm: &Asm, mach: &mut Mach, rng: &mut Rng, sh: &mut Shards, thorough: bool) {
+    let lops: [&'static str; 4] = ["and", "or", "xor", "test"];
+    let all8: Vec<u16> = (0..256).collect();
+    let all_counts: Vec<u16> = (0..256).collect();
+    let mut variant = 0usize;
+    // logic: all byte pairs under two flag backgrounds (incoming CF/OF set and clear)
+    for op in lops {
+        for a in 0..256u16 {
+            for fin in [0x0000u16, 0xFFFF] {
+                let ev = alu_event(asm, mach, op, 8, a, fin & 1, fin, &all8, variant);
+                variant += 1;
+                sh.count("logic8", 256);
+                sh.unit(&[ev]);
+            }
+        }
+    }
+    let lat = lattice16();
+    for op in lops {
+        for a in &lat {
+            let fin = if variant % 2 == 0 { 0x0801 } else { 0xF7FE };
+            let ev = alu_event(asm, mach, op, 16, *a, fin & 1, fin, &lat, variant);
+            variant += 1;
+            sh.count("logic16-lattice", lat.len() as u64);
+            sh.unit(&[ev]);
+        }
+    }
+    for _ in 0..(if thorough { 8000 } else { 100 }) {
+        let op = *rng.pick(&lops);
+        let a = rng.u16();
+        let fin = rng.u16();
+        let bs: Vec<u16> = (0..256).map(|_| rng.u16()).collect();
+        let ev = alu_event(asm, mach, op, 16, a, fin & 1, fin, &bs, variant);
+        variant += 1;
+        sh.count("logic16-random", 256);
+        sh.unit(&[ev]);
+    }
+    // NOT: all bytes, all words
+    for fin in [0x0000u16, 0xFFFF] {
+        let ev = un_event(asm, mach, "not", 8, fin, &all8, variant);
+        variant += 1;
+        sh.count("not8", 256);
+        sh.unit(&[ev]);
+    }
+    for chunk in 0..256u32 {
+        let vals: Vec<u16> = (0..256u32).map(|i| (chunk * 256 + i) as u16).collect();
+        let ev = un_event(asm, mach, "not", 16, if chunk % 2 == 0 { 0x08D5 } else { 0xF72A }, &vals, variant);
+        variant += 1;
+        sh.count("not16", 256);
+        sh.unit(&[ev]);
+    }
+    // shifts/rotates, bytes: every value x every count 0..255 x carry-in (immediate and CL counts alternate)
+    let mut cache = ShiftLines::default();
+    for (op, mn) in SHIFT_MNS {
+        for v in 0..256u16 {
+            for cin in 0..2u16 {
+                let fin = if (v + cin) % 2 == 0 { 0x0000 | cin } else { 0xFFFE | cin };
+                let use_cl = (v as usize + variant) % 2 == 0;
+                let ev = shift_event(asm, mach, &mut cache, op, mn, 8, v, fin, &all_counts, use_cl, variant);
+                variant += 1;
+                sh.count("shift8", 256);
+                sh.unit(&[ev]);
+            }
+        }
+    }
+    // words: lattice values x all counts (quick); all 65536 values x count classes (thorough)
+    for (op, mn) in SHIFT_MNS {
+        for v in &lat {
+            for cin in 0..2u16 {
+                let fin = if cin == 0 { 0xFFFE } else { 0x0001 };
+                let use_cl = variant % 2 == 0;
+                let ev = shift_event(asm, mach, &mut cache, op, mn, 16, *v, fin, &all_counts, use_cl, variant);
+                variant += 1;
+                sh.count("shift16-lattice", 256);
+                sh.unit(&[ev]);
+            }
+        }
+    }
+    if thorough {
+        let mut classes: Vec<u16> = (0..=19).collect();
+        classes.extend_from_slice(&[31, 32, 33, 34, 35, 48, 63, 64, 65, 127, 128, 129, 254, 255]);
+        for (op, mn) in SHIFT_MNS {
+            if mn == "shl" {
+                continue;
+            }
+            for v in 0..=65535u16 {
+                let cin = v & 1;
+                let fin = if (v >> 1) & 1 == 0 { 0x0000 | cin } else { 0xFFFE | cin };
+                let ev = shift_event(asm, mach, &mut cache, op, mn, 16, v, fin, &classes, v % 3 == 0, variant);
+                variant += 1;
+                sh.count("shift16-all", classes.len() as u64);
+                sh.unit(&[ev]);
+            }
+        }
+    }
+    // operand forms
+    let (ps, pm) = if thorough { (30, 4) } else { (3, 1) };
+    form_steps_binary(asm, mach, rng, sh, "logic", &lops, false, ps, pm);
+    form_steps_unary(asm, mach, rng, sh, &["not"], ps, pm);
+    form_steps_shift(asm, mach, rng, sh, ps.min(4), if thorough { 1 } else { 0 });
+    if !thorough {
+        // one pass over the memory shapes with a random shift mnemonic each
+        let shapes = all_shapes();
+        for s in &shapes {
+            for seg in SEGS {
+                for w in [8u8, 16u8] {
+                    let (op, mn) = *rng.pick(&SHIFT_MNS);
+                    let dst = mem_of(s, seg, rng);
+                    let use_cl = rng.chance(1, 2);
+                    let n = rng.below(20) as u32;
+                    let ins = Ins::Shift { op, mn, w, dst, cnt: if use_cl { Cnt::Cl } else { Cnt::Imm(n) } };
+                    let mut regs = random_regs(rng);
+                    if use_cl {
+                        regs.set("cl", n as u16);
+                    }
+                    let evs = run_one(asm, mach, &ins, &rand_spelling(rng), &regs, rng.u16(), rng.below(256) as i64, &[], &[]);
+                    sh.count("shiftform:mem-shapes", 1);
+                    sh.unit(&evs);
+                }
+            }
+        }
+    }
+}
+
+fn gen_c03(asm: &Asm, mach: &mut Mach, rng: &mut Rng, sh: &mut Shards, thorough: bool) {
+    let mops: [&'static str; 4] = ["mul", "imul", "div", "idiv"];
+    let all8: Vec<u16> = (0..256).collect();
+    let lat = lattice16();
+    let mut variant = 0usize;
+    // byte forms: AX x all 256 operands
+    let axs: Vec<u16> = if thorough { (0..=65535u16).collect() } else {
+        let mut v = lat.clone();
+        for _ in 0..300 { v.push(rng.u16()); }
+        v
+    };
+    for op in mops {
+        for ax in &axs {
+            let fin = if variant % 2 == 0 { 0x0000 } else { 0xFFFF };
+            let ev = muldiv_event(asm, mach, op, 8, *ax, 0x5A5A, fin, &all8, variant);
+            variant += 1;
+            sh.count("muldiv8", 256);
+            sh.unit(&[ev]);
+        }
+    }
+    // word forms: (DX, AX) lattice pairs x operand lattice, then random 48-bit triples
+    let small: Vec<u16> = vec![0, 1, 2, 0x7F, 0x80, 0xFF, 0x100, 0x7FFF, 0x8000, 0x8001, 0xFFFE, 0xFFFF, 0x1234, 10, 100];
+    for op in mops {
+        for dx in &small {
+            for ax in &small {
+                let fin = if variant % 2 == 0 { 0x0000 } else { 0xFFFF };
+                let ev = muldiv_event(asm, mach, op, 16, *ax, *dx, fin, &lat, variant);
+                variant += 1;
+                sh.count("muldiv16-lattice", lat.len() as u64);
+                sh.unit(&[ev]);
+            }
+        }
+    }
+    for _ in 0..(if thorough { 8000 } else { 200 }) {
+        let op = *rng.pick(&mops);
+        // bias dx so that quotients sometimes fit
+        let dx = match rng.below(4) { 0 => 0, 1 => rng.below(16) as u16, 2 => 0xFFFF - rng.below(16) as u16, _ => rng.u16() };
+        let ax = rng.u16();
+        let vs: Vec<u16> = (0..256).map(|_| if rng.chance(1, 4) { rng.w16() } else { rng.u16() }).collect();
+        let ev = muldiv_event(asm, mach, op, 16, ax, dx, rng.u16(), &vs, variant);
+        variant += 1;
+        sh.count("muldiv16-random", 256);
+        sh.unit(&[ev]);
+    }
+    // adjusts and sign extensions: all 2^16 AX x {AF,CF}
+    for op in ["aaa", "aas", "daa", "das", "aam", "aad", "cbw", "cwd"] {
+        for (k, fin) in [0x0000u16, 0x0001, 0x0010, 0x0011, 0xFFEE, 0xFFEF, 0xFFFE, 0xFFFF].iter().enumerate() {
+            if !thorough && k >= 4 && (op == "cbw" || op == "cwd") {
+                continue;
+            }
+            for chunk in 0..256u32 {
+                if !thorough && k >= 4 && chunk % 8 != 0 {
+                    continue;
+                }
+                let vals: Vec<u16> = (0..256u32).map(|i| (chunk * 256 + i) as u16).collect();
+                let ev = adjust_event(asm, mach, op, *fin, 0xA5A5 ^ (chunk as u16), &vals);
+                sh.count("adjust", 256);
+                sh.unit(&[ev]);
+            }
+        }
+    }
+    // operand forms
+    let (ps, pm) = if thorough { (30, 4) } else { (3, 1) };
+    form_steps_unary(asm, mach, rng, sh, &mops, ps, pm);
+}
+
+pub const JCC_SPELLINGS: [&str; 31] = ["jmp", "ja", "jnbe", "jae", "jnb", "jb", "jnae", "jbe", "jna", "jc", "je", "jz", "jg", "jnle", "jge", "jnl", "jl", "jnge", "jle", "jng", "jnc", "jne", "jnz", "jno", "jnp", "jpo", "jns", "jo", "jp", "jpe", "js"];
+pub const CX_SPELLINGS: [&str; 6] = ["jcxz", "loop", "loope", "loopz", "loopne", "loopnz"];
+
+fn gen_c06(asm: &Asm, mach: &mut Mach, rng: &mut Rng, sh: &mut Shards, thorough: bool) {
+    // every spelling in both cases x all 2^16 flag words
+    for mn in JCC_SPELLINGS {
+        for upper in [false, true] {
+            for chunk in 0..256u32 {
+                let fs: Vec<u16> = (0..256u32).map(|i| (chunk * 256 + i) as u16).collect();
+                let cx = if chunk % 2 == 0 { 0 } else { 0x1234 };
+                let ev = jcc_event(asm, mach, mn, upper, cx, &fs, (chunk % 3) as usize);
+                sh.count("jcc-flags", 256);
+                sh.unit(&[ev]);
+            }
+        }
+    }
+    // CX-dependent instructions: all 2^16 CX x ZF (x two flag backgrounds)
+    for mn in CX_SPELLINGS {
+        for upper in [false, true] {
+            for f in [0x0000u16, 0x0040, 0xFFBF, 0xFFFF] {
+                for chunk in 0..256u32 {
+                    let cxs: Vec<u16> = (0..256u32).map(|i| (chunk * 256 + i) as u16).collect();
+                    let ev = loopcx_event(asm, mach, mn, upper, f, &cxs, (chunk % 3) as usize);
+                    sh.count("cx-dependent", 256);
+                    sh.unit(&[ev]);
+                }
+            }
+        }
+    }
+    // the CX-dependent ones also under all flag words for a few CX values
+    for mn in CX_SPELLINGS {
+        for cx in [0u16, 1, 2, 0xFFFF] {
+            for chunk in 0..256u32 {
+                if !thorough && chunk % 16 != 0 {
+                    continue;
+                }
+                let fs: Vec<u16> = (0..256u32).map(|i| (chunk * 256 + i) as u16).collect();
+                let ev = jcc_event(asm, mach, mn, false, cx, &fs, 1);
+                sh.count("cx-flags", 256);
+                sh.unit(&[ev]);
+            }
+        }
+    }
+    // full-state step events on a stratified sample
+    let n = if thorough { 20000 } else { 1500 };
+    for k in 0..n {
+        let mn: &'static str = if k % 5 == 0 { *rng.pick(&CX_SPELLINGS) } else { *rng.pick(&JCC_SPELLINGS) };
+        let target = rng.below(4) as usize;
+        let ins = Ins::Jcc { mn, label: format!("t{}", rng.below(100)), target };
+        let mut regs = random_regs(rng);
+        if rng.chance(1, 3) {
+            regs.cx = *rng.pick(&[0u16, 1, 2, 0xFFFF]);
+        }
+        let evs = run_one(asm, mach, &ins, &rand_spelling(rng), &regs, rng.u16(), rng.below(256) as i64, &[], &[]);
+        sh.count("jcc-step", 1);
+        sh.unit(&evs);
+    }
 }
